@@ -233,7 +233,7 @@ Section Spec.
               if hop_nil r (l_hops rl) then Some w
               else match get_path r (l_path rl) with
                    | Ok x =>
-                       match apply_strategy e zf U call wpkg to_dir h x with
+                       match apply_strategy e zf U call wpkg to_dir false h x with
                        | Ok (Some y) => out_opt (set_path w (l_path wl) y)
                        | Ok None => Some w
                        | _ => None
@@ -315,9 +315,14 @@ Definition is_struct (e : env) (p : pkg) (n : string) : bool :=
    two struct types (K_map_submap_unchecked otherwise);
    G4: FromX never converts INTO a named type of the source package
    (K_map_src_named_qualified) *)
-Definition strategies_ok (e : env) (jobs : list job) (to_dir : bool) (prs : list (leaf * leaf * strategy)) : bool :=
+(* G5: no mapper method is called through a pointer-embedded mapper (the call
+   dereferences the embedded pointer, which FromX's own reset has just set to nil:
+   K_map_mapper_ptr_embedded) *)
+Definition strategies_ok (e : env) (jobs : list job) (mh : option path) (to_dir : bool)
+           (prs : list (leaf * leaf * strategy)) : bool :=
   forallb (fun x =>
     match snd x with
+    | SFunc _ => match mh with None => true | Some _ => false end
     | SMap _ _ n1 n2 | SEach _ _ n1 n2 =>
         is_struct e PSrc n1 && is_struct e PDst n2
         && match find_job jobs n1 with Some j => String.eqb (j_dst j) n2 | None => false end
@@ -338,8 +343,8 @@ Definition job_guard (e : env) (fuel : nat) (jobs : list job) (jb : job) : bool 
   plain_job jb
   && side_guard e fuel PSrc (j_src jb) && side_guard e fuel PDst (j_dst jb)
   && no_fanout e fuel jb
-  && strategies_ok e jobs true (pairs_to e fuel jb)
-  && strategies_ok e jobs false (pairs_from e fuel jb).
+  && strategies_ok e jobs (j_mapper_hop jb) true (pairs_to e fuel jb)
+  && strategies_ok e jobs (j_mapper_hop jb) false (pairs_from e fuel jb).
 
 Definition pair_guard (e : env) (fuel : nat) (jobs : list job) : bool :=
   forallb (job_guard e fuel jobs) jobs.
